@@ -59,7 +59,7 @@ class C03(core.Check):
     thorough_budget_s = 1500.0
     chunk = 25
     run_timeout_s = 60.0
-    isolate = False
+    isolate = True  # a printer cached by the library must not carry state from one run into the next
     rule = (
         "one evaluation = one edit history (1-30 steps) on a living Mapfile dictionary built through the dict API "
         "from a schema-generated shadow model (19 object types, 261 keyword alternatives: enum, string, number, "
